@@ -72,6 +72,18 @@ def L(v):
     raise Unsupported('expected list, got ' + type(v).__name__)
 
 
+def _items(v):
+    """remaining items of an iterator value; a concrete `lo..hi` counts as one"""
+    v = deref(v)
+    if isinstance(v, Adt) and v.ty == 'Range':
+        lo, hi = deref(v.fields[0]), deref(v.fields[1])
+        if is_sym(lo) or is_sym(hi):
+            raise Unsupported('symbolic range iteration')
+        v.fields[0] = hi if hi > lo else lo
+        return list(range(lo, hi))
+    return v.rest()
+
+
 def sub(s, cs):
     return SStr(cs)
 
@@ -1158,7 +1170,10 @@ def m_iset_remove(it, ctx, a, m, f):
     v = L(a[0])
     for i, y in enumerate(v):
         if ctx.decide(struct_eq(ctx, y, a[1])):
-            del v[i]
+            if m.group(1) == 'shift_remove':
+                del v[i]
+            else:               # swap_remove (and `remove`, its deprecated alias): the last element takes the place
+                v[i] = v[-1]; v.pop()
             return True
     return False
 
@@ -1268,7 +1283,7 @@ def m_skip_take(it, ctx, a, m, f):
 
 @model(r'Iterator>::(min|max)$')
 def m_minmax(it, ctx, a, m, f):
-    r = deref(a[0]).rest()
+    r = _items(a[0])
     if not r: return NoneV()
     if any(is_sym(deref(x)) for x in r): raise Unsupported('symbolic min/max')
     return Some(min(r, key=deref) if m.group(1) == 'min' else max(r, key=deref))
@@ -1276,13 +1291,13 @@ def m_minmax(it, ctx, a, m, f):
 
 @model(r'Iterator>::sum::<')
 def m_sum(it, ctx, a, m, f):
-    return sum(deref(x) for x in deref(a[0]).rest())
+    return sum(deref(x) for x in _items(a[0]))
 
 
 @model(r'Iterator>::partition::<')
 def m_partition(it, ctx, a, m, f):
     yes = []; no = []
-    for x in deref(a[0]).rest():
+    for x in _items(a[0]):
         (yes if ctx.decide(it.call_closure(ctx, a[1], [mkref(x)])) else no).append(x)
     return [yes, no]
 
@@ -1290,7 +1305,7 @@ def m_partition(it, ctx, a, m, f):
 @model(r'Iterator>::unzip::<')
 def m_unzip(it, ctx, a, m, f):
     xs = []; ys = []
-    for p in deref(a[0]).rest():
+    for p in _items(a[0]):
         p = deref(p); xs.append(p[0]); ys.append(p[1])
     return [xs, ys]
 
@@ -1298,7 +1313,7 @@ def m_unzip(it, ctx, a, m, f):
 @model(r'Iterator>::(take_while|skip_while|map_while)::')
 def m_while(it, ctx, a, m, f):
     kind = m.group(1); out = []
-    r = deref(a[0]).rest()
+    r = _items(a[0])
     if kind == 'take_while':
         for x in r:
             if not ctx.decide(it.call_closure(ctx, a[1], [mkref(x)])): break
@@ -1317,7 +1332,7 @@ def m_while(it, ctx, a, m, f):
 
 @model(r'Iterator>::(rposition|rfind)::')
 def m_rsearch(it, ctx, a, m, f):
-    r = deref(a[0]).rest()
+    r = _items(a[0])
     for k in range(len(r) - 1, -1, -1):
         arg = r[k] if m.group(1) == 'rposition' else mkref(r[k])
         if ctx.decide(it.call_closure(ctx, a[1], [arg])):
@@ -1327,7 +1342,7 @@ def m_rsearch(it, ctx, a, m, f):
 
 @model(r'Iterator>::(eq|ne)::<')
 def m_iter_eq(it, ctx, a, m, f):
-    x = deref(a[0]).rest(); y = L(a[1]) if not isinstance(deref(a[1]), Iter) else deref(a[1]).rest()
+    x = _items(a[0]); y = L(a[1]) if not isinstance(deref(a[1]), Iter) else deref(a[1]).rest()
     r = struct_eq(ctx, x, y)
     return r if m.group(1) == 'eq' else b_not(r)
 
@@ -1403,22 +1418,22 @@ def m_iter_id(it, ctx, a, m, f):
 
 @model(r'Iterator>::enumerate$')
 def m_enumerate(it, ctx, a, m, f):
-    return Iter([[k, x] for k, x in enumerate(deref(a[0]).rest())])
+    return Iter([[k, x] for k, x in enumerate(_items(a[0]))])
 
 
 @model(r'Iterator>::rev$')
 def m_rev(it, ctx, a, m, f):
-    return Iter(list(reversed(deref(a[0]).rest())))
+    return Iter(list(reversed(_items(a[0]))))
 
 
 @model(r'Iterator>::chain::')
 def m_chain(it, ctx, a, m, f):
-    return Iter(deref(a[0]).rest() + L(a[1]))
+    return Iter(_items(a[0]) + L(a[1]))
 
 
 @model(r'Iterator>::zip::')
 def m_zip(it, ctx, a, m, f):
-    x = deref(a[0]).rest(); y = L(a[1]) if not isinstance(deref(a[1]), Iter) else deref(a[1]).rest()
+    x = _items(a[0]); y = L(a[1]) if not isinstance(deref(a[1]), Iter) else deref(a[1]).rest()
     return Iter([[p, q] for p, q in zip(x, y)])
 
 
@@ -1460,7 +1475,7 @@ def _iter_items(r):
 @model(r'Iterator>::flatten$')
 def m_flatten(it, ctx, a, m, f):
     out = []
-    for x in deref(a[0]).rest():
+    for x in _items(a[0]):
         out.extend(_iter_items(x))
     return Iter(out)
 
@@ -1468,14 +1483,14 @@ def m_flatten(it, ctx, a, m, f):
 @model(r'Iterator>::fold::')
 def m_fold(it, ctx, a, m, f):
     acc = a[1]
-    for x in deref(a[0]).rest():
+    for x in _items(a[0]):
         acc = it.call_closure(ctx, a[2], [acc, x])
     return acc
 
 
 @model(r'Iterator>::for_each::')
 def m_for_each(it, ctx, a, m, f):
-    for x in deref(a[0]).rest():
+    for x in _items(a[0]):
         it.call_closure(ctx, a[1], [x])
     return []
 
@@ -1511,7 +1526,7 @@ def m_search(it, ctx, a, m, f):
 
 @model(r'Iterator>::(count|last)$')
 def m_count(it, ctx, a, m, f):
-    r = deref(a[0]).rest()
+    r = _items(a[0])
     if m.group(1) == 'count':
         return len(r)
     return Some(r[-1]) if r else NoneV()
@@ -1519,13 +1534,13 @@ def m_count(it, ctx, a, m, f):
 
 @model(r'Iterator>::collect::<(Vec|Box<\[)')
 def m_collect_vec(it, ctx, a, m, f):
-    return deref(a[0]).rest()
+    return _items(a[0])
 
 
 @model(r'Iterator>::collect::<Option<Vec')
 def m_collect_opt_vec(it, ctx, a, m, f):
     out = []
-    for x in deref(a[0]).rest():
+    for x in _items(a[0]):
         if not is_some(x):
             return NoneV()
         out.append(x.fields[0])
@@ -1549,7 +1564,7 @@ def _set_insert(ctx, lst, x, key=lambda v: v):
 @model(r'Iterator>::collect::<BTreeSet<')
 def m_collect_btreeset(it, ctx, a, m, f):
     out = []
-    for x in deref(a[0]).rest():
+    for x in _items(a[0]):
         _set_insert(ctx, out, x)
     return out
 
@@ -1558,11 +1573,11 @@ def m_collect_btreeset(it, ctx, a, m, f):
 def m_collect_indexset(it, ctx, a, m, f):
     if m.group(1) == 'HashSet' and _random_hasher(f):
         out = []
-        for x in deref(a[0]).rest():
+        for x in _items(a[0]):
             _iset_insert(ctx, out, x)
         return Adt('StdHashSet', None, [out], ['items'])
     out = []
-    for x in deref(a[0]).rest():
+    for x in _items(a[0]):
         _iset_insert(ctx, out, x)
     return out
 
@@ -1570,7 +1585,7 @@ def m_collect_indexset(it, ctx, a, m, f):
 @model(r'Iterator>::collect::<String>')
 def m_collect_string(it, ctx, a, m, f):
     out = []
-    for x in deref(a[0]).rest():
+    for x in _items(a[0]):
         x = deref(x)
         out.extend(x.cs if isinstance(x, SStr) else [x])
     return SStr(out)
